@@ -5,7 +5,8 @@
    * cells of two different sites have no interior point in common as soon as both satisfy the vertex test exactly.
    * reflection of every clause of check_voronoi. *)
 From Coq Require Import ZArith List Bool Lia.
-From GeosV Require Import Lib.KernelDefs C16.Defs C16.Mesh.
+From GeosV.Lib Require Import KernelDefs.
+From GeosV.C16 Require Import Defs Mesh.
 Import ListNotations.
 Local Open Scope Z_scope.
 
